@@ -32,7 +32,18 @@ let do_compat (md : exec_mode) (seed : int) (txt : string) : string =
      | RejectInternal _ -> "REJECT-INTERNAL"
      | Diverge _ -> "TC-HANG")
 
+(* fjclass: is the program's initial configuration in the fork-join class (proofs/ForkJoin.v), for
+   which determinism is proved with no hypothesis left? *)
+let do_fjclass (txt : string) : string =
+  match parse_string (explode txt) with
+  | POk p ->
+    (match typecheck p with
+     | Accept p' -> if fj_funs_b p'.p_funs && fj_cfg_b (init_config p') then "FJ-IN" else "FJ-OUT"
+     | _ -> "REJECT")
+  | _ -> "PARSE-ERR"
+
 let () =
+  register "fjclass" do_fjclass;
   List.iter (fun (nm, md) ->
       List.iter (fun seed -> register (Printf.sprintf "compat-%s-%d" nm seed) (do_compat md seed)) [0; 1; 2; 3; 4; 5; 6; 7])
     [("async", Async); ("sync", Sync)]
